@@ -122,7 +122,12 @@ def g_bool_const(rnd, g, depth):
     if c < 0.5:
         return ("or", [g_bool_const(rnd, g, depth - 1) for _ in range(rnd.randint(2, 3))])
     if c < 0.62:
-        return ("xor", [g_bool_const(rnd, g, depth - 1) for _ in range(rnd.randint(2, 3))])
+        args = []
+        for _ in range(rnd.randint(2, 3)):
+            a = g_bool_const(rnd, g, depth - 1)
+            if repr(riddle.strip_nn(a)) not in [repr(riddle.strip_nn(x)) for x in args]:
+                args.append(a)
+        return ("xor", args) if len(args) > 1 else args[0]
     if c < 0.75:
         return ("imp", g_bool_const(rnd, g, depth - 1), g_bool_const(rnd, g, depth - 1))
     if c < 0.9:
